@@ -133,6 +133,12 @@ async def _custom_handler(req, resp, ex, params, ws=None):
     await ws.close(4321)
 
 
+async def _custom_handler_kwonly(req, resp, ex, params, *, ws=None):
+    # the documented way to receive the connection is "a `ws` argument"; a keyword-only one is an argument too
+    req.scope['vf.trace'].append('custom_handler')
+    await ws.close(4321)
+
+
 async def _custom_handler_raises(req, resp, ex, params, ws=None):
     req.scope['vf.trace'].append('custom_handler')
     raise falcon.HTTPError(409)
@@ -153,6 +159,8 @@ def get_app(cap, mw, handler, err_code):
         app.add_route('/nows', _NoWs())
         if handler == 'closes':
             app.add_error_handler(_Custom, _custom_handler)
+        elif handler == 'closes_kwonly':
+            app.add_error_handler(_Custom, _custom_handler_kwonly)
         elif handler == 'raises':
             app.add_error_handler(_Custom, _custom_handler_raises)
         _APPS[key] = app
@@ -413,7 +421,7 @@ class Model(object):
         elif how == 'raise_exception' or (how == 'raise_custom' and handler is None):
             r = cleanup_on_error()
         elif how == 'raise_custom':
-            if handler == 'closes':
+            if handler in ('closes', 'closes_kwonly'):
                 r = self.do_close(4321, None)
             else:
                 r = self.do_close(3409, None)
@@ -746,7 +754,7 @@ def _case(draw):
         'fail_send_at': fail,
         'fault': draw(st.sampled_from(['oserror', 'oserror', 'uvicorn1000', 'daphne_proto', 'other'])) if fail is not None else None,
         'mw': draw(st.booleans()),
-        'handler': draw(st.sampled_from([None, 'closes', 'raises'])),
+        'handler': draw(st.sampled_from([None, 'closes', 'closes_kwonly', 'raises'])),
         'err_code': draw(st.sampled_from([None, None, 4500, 3999, 999, 1005])),
     }
 
